@@ -1,25 +1,18 @@
 //! rvchild <role> [args…] — subprocess roles of the harness.
-<<<<<<< HEAD
 //!   routinator <args…>   the routinator command line (same steps as routinator's main.rs), in a
 //!                        process of its own because logging can be set up only once per process.
-fn main() {
-    let args: Vec<String> = std::env::args().collect();
-    match args.get(1).map(|s| s.as_str()) {
-        Some("routinator") => std::process::exit(rv::fmtx::child_routinator(&args[2..])),
-        _ => {
-            eprintln!("usage: rvchild <role> [args…]");
-            std::process::exit(2);
-        }
-=======
+//!   bytes-worker …       C27: executes decoders on corrupt input (allocation cap, CPU budget, panics reported)
 #[global_allocator]
 static ALLOC: rv::bw::TrackAlloc = rv::bw::TrackAlloc;
 
 fn main() {
     let args: Vec<String> = std::env::args().collect();
     match args.get(1).map(|s| s.as_str()) {
-        // C27: executes decoders on corrupt input (allocation cap, CPU budget, panics reported)
+        Some("routinator") => std::process::exit(rv::fmtx::child_routinator(&args[2..])),
         Some("bytes-worker") => rv::c27::child_main(&args[2..]),
-        _ => {}
->>>>>>> agent-bytes
+        _ => {
+            eprintln!("usage: rvchild <role> [args…]");
+            std::process::exit(2);
+        }
     }
 }
